@@ -29,6 +29,7 @@ CLAUSE_OF = {
     "P15": ("C18", "a SUBSCRIBE / UNSUBSCRIBE carrying a malformed topic filter reached the protocol service"),
     "P16": ("C04", "a response was written after the response to a later request"),
     "P17": ("C03", "a PUBREL was accepted for an identifier whose QoS 2 PUBLISH has not been handled successfully"),
+    "P18": ("C04", "a PUBLISH vanished: no handler invocation, no response, connection still healthy"),
     "P9": ("C17", "a handler saw a topic that is not the latest binding of the alias used"),
 }
 # recorded findings that the scan can hit (see known_findings.json)
@@ -343,6 +344,68 @@ def p17(v, case, obs):
     return []
 
 
+def p18(v, case, obs):
+    """C04 / C03: no request is silently dropped on a healthy connection.  A QoS>0 PUBLISH with a free identifier,
+    a plain topic and no alias that the peer sends while everything before it was harmless (no violation, no
+    failing completion) and the receive limits are not in play must reach a handler in the very step in which it
+    was sent -- it cannot vanish.  (v3 servers with a receive limit and cases over the v5 receive maximum are left
+    out: there reading may legitimately be paused.)"""
+    if obs == "9999":
+        return []
+    fields = [[int(t) for t in f.split(",")] for f in case.split(";")]
+    cfg, ops = fields[0], fields[1:]
+    of = obs.split(";")
+    if len(of) != len(ops) or len(cfg) < 5:
+        return []
+    if (v == 3 and cfg[3] != 0) or cfg[4] != 0:
+        return []            # a gated protocol service pauses reading behind a running control call
+    max_qos = cfg[0]
+    rmax = (cfg[1] or 16) if v == 5 else 10 ** 9
+    out_pub, out_other = set(), set()
+    nctl = 0
+    for n, (op, f) in enumerate(zip(ops, of)):
+        try:
+            wire, hs, ps, stop1, nstop, is_open = I.parse_obs(f)
+        except ValueError:
+            return []
+        expect = None
+        if op[0] == 1 and op[1] == 1 and len(op) >= 8:
+            qos, pid, topic, alias = op[2], op[3] if op[2] else 0, op[4], op[5]
+            if topic not in (1, 2, 3) or alias or qos > max_qos:
+                return []
+            if qos:
+                if pid == 0 or pid in out_pub or pid in out_other or len(out_pub) >= rmax:
+                    return []
+                out_pub.add(pid)
+                expect = (qos, pid)
+        elif op[0] == 1 and op[1] in (8, 13, 14, 15):
+            nctl += 1
+        elif op[0] == 1 and op[1] in (6, 7) and len(op) >= 4 and op[3] in (1, 2):
+            if op[2] == 0 or op[2] in out_pub or op[2] in out_other:
+                return []
+            out_other.add(op[2])
+            nctl += 1
+        elif op[0] == 2 and op[2] == 0:
+            pass
+        elif op[0] == 3 and op[2] in (0, 2):
+            pass
+        else:
+            return []
+        if nctl > 8:
+            return []            # the control path buffers 16 packets: stay far away from it
+        if any(t == 0xE0 for (t, _, _) in wire) or not is_open or nstop:
+            return []
+        if expect is not None and not any((q, p) == expect for (h, q, p, _t, _pl, _rt) in hs if h < 1000):
+            return ["P18 PUBLISH qos %d id %d was neither handed to the handler nor answered (op %d)" % (
+                expect[0], expect[1], n + 1)]
+        for (t, pid, r) in wire:
+            if t == 0x40 or (t == 0x50 and r >= 0x80) or (t == 0x70 and r == 0):
+                out_pub.discard(pid)
+            elif t in (0x90, 0xB0):
+                out_other.discard(pid)
+    return []
+
+
 RESP_OF = {1: None, 4: 0x70, 6: 0x90, 7: 0xB0, 8: 0xD0}
 
 
@@ -433,7 +496,9 @@ class InbPart(Part):
         if "C03" in self.want or "C11" in self.want:
             bad = bad + p17(self.ver, case, obs)
         if "C04" in self.want and self.engine.startswith("inb"):
-            bad = bad + p16(self.ver, case, obs)
+            bad = bad + p16(self.ver, case, obs) + p18(self.ver, case, obs)
+        elif "C03" in self.want and self.engine.startswith("inb"):
+            bad = bad + p18(self.ver, case, obs)
         elif "C12" in self.want and self.engine in ("inb5", "cli5"):
             # receive maximum: 0x93 for a peer within its quota, or another code for a peer over it
             bad = bad + [b.replace("P12 ", "P13 ") for b in p12(self.ver, case, obs, client=self.engine == "cli5")
@@ -444,7 +509,7 @@ class InbPart(Part):
                 continue               # imprecise for peers that release before the PUBREC (see DESIGN 10.3)
             prop = CLAUSE_OF.get(code, ("?", ""))[0]
             if prop in self.want or (code in ("P10", "P11") and "C03" in self.want) \
-                    or (code == "P17" and "C11" in self.want):
+                    or (code == "P17" and "C11" in self.want) or (code == "P18" and "C03" in self.want):
                 for k, name in KNOWN.items():
                     if b.startswith(k):
                         return "0,known," + name
